@@ -1139,16 +1139,16 @@ class Timezone(Component):
             # gets subtracted in to_tz().
             transtimes = [dt.replace (tzinfo=None) for dt in rrule]
 
-        # or rdates
-        elif 'RDATE' in component:
+        else:
+            transtimes = [dtstart]
+
+        # and rdates
+        if 'RDATE' in component:
             if not isinstance(component['RDATE'], list):
                 rdates = [component['RDATE']]
             else:
                 rdates = component['RDATE']
-            transtimes = [dtstart] + [leaf.dt for tree in rdates for
-                                      leaf in tree.dts]
-        else:
-            transtimes = [dtstart]
+            transtimes += [leaf.dt for tree in rdates for leaf in tree.dts]
 
         transitions = [(transtime, offsetfrom, offsetto, tzname) for
                        transtime in set(transtimes)]
